@@ -519,6 +519,39 @@ fn random_program(rng: &mut Rng, depth: u32) -> Vec<Node> {
 /// replaced by its body (expanded on the IR), and the reference image.
 /// Unselected branches inside the body of a macro that takes parameters: they may name parameters the
 /// call does not pass (an optional last parameter), or hold garbage around an `@n` - no effect either way.
+/// Hundreds of conditional blocks open at once inside text that is being skipped, with lines between the inner
+/// `.endif`s and an `.else` of the outer block behind them: the skipper's count of open blocks has no small limit.
+fn deep_nesting_in_skipped_text(ctx: &Ctx) {
+    for depth in [100usize, 254, 255, 256, 257, 300, 511, 512, 513, 1000, 70000] {
+        for (k, opener) in [".if 1", ".ifdef never_defined_deep", ".ifndef never_defined_deep", ".if 0"].iter().enumerate() {
+            if depth > 1000 && k > 0 {
+                continue;
+            }
+            let mut src = String::from("\tnop\n.if 0\n");
+            for _ in 0..depth {
+                src.push_str(opener);
+                src.push_str("\n\tsei\n");
+            }
+            for j in 0..depth {
+                src.push_str(if j % 3 == 0 { "\tsleep\n.else\n\twdr\n.endif\n" } else { "\tsleep\n.endif\n" });
+            }
+            src.push_str("\t.error \"still skipped\"\n.else\n\tret\n.endif\n\tcli\n");
+            let out = fw::build_str(&src);
+            ctx.eval(1);
+            ctx.count("deep_nesting_in_skipped_text", 1);
+            ctx.distinct(fw::hash_str(&format!("deep|{}|{}", depth, opener)));
+            let want: Vec<u8> = vec![0x00, 0x00, 0x08, 0x95, 0xf8, 0x94];
+            if !matches!(&out, Outcome::Ok(b) if b.code == want) {
+                ctx.violation(
+                    format!("cond/deep-nesting-in-skipped-text/{}", if depth < 256 { "below-256" } else if depth < 65536 { "256-and-more" } else { "65536-and-more" }),
+                    format!("{} `{}` blocks nested inside `.if 0`: expected nop / ret / cli, got {}", depth, opener, fw::clip(&format!("{:?}", out.brief()), 160)),
+                    json!({"source": src, "deleted": "\tnop\n\tret\n\tcli\n", "shape": "deep-nesting", "detail": {"expect_code": fw::hex(&want, 64)}, "observed": out.brief()}),
+                );
+            }
+        }
+    }
+}
+
 fn optional_parameters(ctx: &Ctx, n: u64) {
     fw::par_for(n, 16, |i| {
         let mut rng = Rng::for_case(ctx.seed, 0xC08_B, i);
@@ -682,6 +715,7 @@ pub fn random_nodes(rng: &mut Rng) -> Vec<Node> {
 }
 
 pub fn run(ctx: &Ctx) -> i32 {
+    deep_nesting_in_skipped_text(ctx);
     let max_arms = ctx.tier.pick(3usize, 5usize);
     let n_enum = enumerated(ctx, max_arms, true);
     ctx.put("enumerated_programs", json!(n_enum));
